@@ -433,7 +433,7 @@ class JunctionCompartment(Compartment):
         """
 
         if self.duration_group:
-            if (isinstance(dest, TimedCompartment) and dest.duration_group != self.duration_group) or (isinstance(dest, JunctionCompartment) and dest.duration_group != self.duration_group):
+            if (isinstance(dest, TimedCompartment) and dest.duration_group != self.duration_group) or (isinstance(dest, JunctionCompartment) and dest.duration_group and dest.duration_group != self.duration_group):
                 raise ModelError("Mismatched junction duration groups - the framework has not been validated correctly")
             TimedLink.create(pop=self.pop, parameter=par, source=self, dest=dest)
         else:
